@@ -13,6 +13,8 @@
 #include "BlockHDF5.hpp"
 #include "FeatureHDF5.hpp"
 
+#include <algorithm>
+
 using namespace nix::base;
 
 namespace nix {
@@ -105,6 +107,16 @@ bool BaseTagHDF5::removeReference(const std::string &name_or_id) {
 
 
 void BaseTagHDF5::references(const std::vector<DataArray> &refs_new) {
+    // refuse the whole vector before the first reference is removed
+    std::vector<std::string> ids;
+    for (const auto &ref : refs_new) {
+        if (!block()->hasEntity(ref))
+            throw std::runtime_error("BaseTagHDF5::references: DataArray not found in block!");
+        if (std::find(ids.begin(), ids.end(), ref.id()) != ids.end())
+            throw std::runtime_error("BaseTagHDF5::references: DataArray given more than once!");
+        ids.push_back(ref.id());
+    }
+
     while (referenceCount() > 0) {
         removeReference(getReference(0)->id());
     }
